@@ -349,6 +349,9 @@ def _mask_platforms(ctx: Ctx, platforms: List[str]) -> Optional[Set[str]]:
 
 def _direction_pairs(ctx: Ctx, f: Func, pairs: Dict[str, Set[str]]) -> None:
     """direction literal -> keys of the per-interface record written for it."""
+    from .normalise import normalised as _nrm
+
+    f = _nrm(ctx, f, "ifexp")  # `data["input" if direction == "in" else "output"] = intf` is two stores
     cfg = ctx.cfg(f)
     lenv = ctx.folder.local_env(f)
     from .common import single_env
